@@ -829,8 +829,11 @@ where
             for (sidx, sym) in prod.iter().enumerate().skip(sym_idx) {
                 match sym {
                     Symbol::Rule(s_ridx) => {
+                        // The rest of this production is resumed once the rule's own
+                        // sentence has been emitted.
                         st.push((pidx, sidx + 1));
                         st.push((cheapest_prod(*s_ridx), 0));
+                        break;
                     }
                     Symbol::Token(s_tidx) => {
                         s.push(*s_tidx);
